@@ -273,3 +273,44 @@ func MultiDoc(thorough bool, yield func(u *Universe, desc string, alias bool)) {
 		}
 	}
 }
+
+// WorldsSpecial: base URIs, $id values and references whose paths contain characters that
+// net/url only preserves through RawPath (sub-delims, percent-encoded reserved characters).
+func WorldsSpecial(yield func(u *Universe, desc string)) {
+	roots := []string{"", "http://h/a(v2)/root.json", "http://h/a%2Fb/root.json", "http://h/it's!*/root.json", "http://h/dir/root[1].json"}
+	bases := []string{"http://h/b(1)/base.json", "http://h/b%2Fc/base.json", "http://h/plain/base.json"}
+	eids := []string{"e(1).json", "x%2Fy.json", "e.json", "http://h/abs(2)/e.json"}
+	refs := []string{"#/$defs/t", "#k", "#/$defs/e", "e(1).json", "e(1).json#k", "x%2Fy.json", "x%2Fy.json#/$defs/t", "x/y.json", "e.json#k", "http://h/abs(2)/e.json#k", "e%281%29.json", "base.json#k", "root.json#k", "./e(1).json#/$defs/t"}
+	for _, base := range bases {
+		for _, rid := range roots {
+			for _, eid := range eids {
+				for _, ref := range refs {
+					for _, inE := range []bool{false, true} {
+						probe := fmt.Sprintf(`{"$ref":%q}`, ref)
+						eDefs := `"t":{"const":4},"a":{"$anchor":"k","const":5}`
+						ptr := "#/$defs/probe"
+						if inE {
+							eDefs += `,"probe":` + probe
+							ptr = "#/$defs/e/$defs/probe"
+						}
+						e := fmt.Sprintf(`{"$id":%q,"const":3,"$defs":{%s}}`, eid, eDefs)
+						defs := `"t":{"const":1},"a":{"$anchor":"k","const":2},"e":` + e
+						if !inE {
+							defs += `,"probe":` + probe
+						}
+						var parts []string
+						if rid != "" {
+							parts = append(parts, fmt.Sprintf(`"$id":%q`, rid))
+						}
+						parts = append(parts, `"type":"object"`, `"properties":{"p":{"$ref":"`+ptr+`"}}`, `"$defs":{`+defs+`}`)
+						u := &Universe{Root: "{" + strings.Join(parts, ",") + "}", Base: base, Docs: map[string]string{}, Kind: "world-special"}
+						for _, v := range []string{"1", "2", "3", "4", "5", "9", `{"p":1}`} {
+							u.Insts = append(u.Insts, `{"p":`+v+`}`)
+						}
+						yield(u, fmt.Sprintf("base=%q rootid=%q eid=%q inE=%v ref=%q", base, rid, eid, inE, ref))
+					}
+				}
+			}
+		}
+	}
+}
